@@ -35,7 +35,9 @@ CFG = {
     "theorems": ["C04_slices", "C04_witness_field_slices", "C04_load_slices", "C04_body_aux_preserved", "C04_untouched_fields_verbatim",
                  "C04_witness_map_wf", "C04_fresh_signature_sets_wf", "C04_hash", "C04_sign_uses_hash", "C04_datum_bytes",
                  "C04_datum_hash_preimage", "C04_datum_bytes_nested", "C04_fixed_body", "C04_map_length_old_refuted",
-                 "C04_drops_empty_scripts_old_refuted", "C04_set_body_hash_old_refuted"],
+                 "C04_drops_empty_scripts_old_refuted", "C04_set_body_hash_old_refuted", "C04_no_fuel_rejection",
+                 "C04_block_bodies", "C04_block", "C04_versioned_block", "C04_block_no_fuel_rejection", "C04_block_hash_old_refuted",
+                 "C04_witness_map_wf_after_ops", "C04_judge_accepts_model"],
     "allowed_axioms": [],
     "compare": _agree,
     "nontrivial": _nontrivial,
